@@ -115,6 +115,10 @@ def canon(x, obs_id=None):
         return ["dt", x.isoformat()]
     if isinstance(x, timedelta):
         return ["td", x.total_seconds()]
+    import dataclasses
+
+    if dataclasses.is_dataclass(x) and not isinstance(x, type):
+        return ["dc:" + type(x).__name__, [[f.name, canon(getattr(x, f.name), obs_id)] for f in dataclasses.fields(x)]]
     if isinstance(x, Observable):
         if obs_id is not None:
             return ["obs", obs_id(x)]
